@@ -224,7 +224,7 @@ def check(case, obs, tally):
     starts = [(e[0], e[4]["inst"], e[4]["scope"]) for e in obs.app_events(kind="start")]
     tag_of = {}
     for seq, inst, sc in starts:
-        m = re.match(rb"/t(\d+)", sc.get("raw_path") or b"")
+        m = re.match(rb"/+t(\d+)", sc.get("raw_path") or b"")
         tag_of[inst] = int(m.group(1)) if m else -1
     idx_of_tag = {r["tag"]: k for k, r in enumerate(reqs)}
     if open_sends:
